@@ -1,0 +1,14 @@
+//go:build verif
+
+package sts
+
+import "reflect"
+
+// Exports for the verification harness in /verif (build tag "verif" only).
+
+// VerifConfAuxTypes exposes the unexported aux structs through which SourceConf,
+// TagConf and TargetConf are decoded, so that the harness can compare the keys and
+// kinds of every option with the model's field table by reflection.
+func VerifConfAuxTypes() (src, tag, tgt reflect.Type) {
+	return reflect.TypeOf(auxSourceConf{}), reflect.TypeOf(auxTagConf{}), reflect.TypeOf(auxTargetConf{})
+}
